@@ -30,7 +30,7 @@ from explorerscript.ssb_converting.ssb_data_types import SsbOperation
 class MacroDefCompileHandler(AbstractFuncdefCompileHandler[ExplorerScriptParser.MacrodefContext]):
     def collect(self) -> list[SsbOperation]:
         """Collects macro operations."""
-        return self.collect_ops()
+        return self.collect_ops(terminate_trailing_labels=False)
 
     def get_new_routine_id(self, old_id: int) -> int:
         """n/a, use get_name"""
